@@ -18,6 +18,15 @@ def key_for(name, d):
             return "DTRoundTrip env-format localized-am-pm-marker-not-parsed"
         ycls = "<1000" if d["dt"]["y"] < 1000 else ">=1000"
         return f"DTRoundTrip ok={str(d['ok']).lower()} iso={str(f['iso']).lower()} df={f['df']} tf={f['tf']} year{ycls}"
+    if d["kind"] == "tod":
+        f = d["fmt"]
+        if "aa" in f["tf"] and not f["iso"] and not re.search(r"(?i)\b[ap]m\b", d["text"]):
+            return "TodRoundTrip env-format localized-am-pm-marker-not-parsed"
+        cls = "none" if d["dt"]["us"] == 0 else "fraction"
+        return f"TodRoundTrip ok={str(d['ok']).lower()} iso={str(f['iso']).lower()} tf={f['tf']} subsecond={cls}"
+    if d["kind"] == "date":
+        ycls = "<1000" if d["dt"]["y"] < 1000 else ">=1000"
+        return f"DateRoundTrip ok={str(d['ok']).lower()} iso={str(d['fmt']['iso']).lower()} df={d['fmt']['df']} year{ycls}"
     if d["kind"] == "num":
         return f"NumRoundTrip ok={str(d['ok']).lower()} back_equal={str(d['back_equal']).lower()} eq_canon={str(d['eq_canon']).lower()} long={str(len(d['text']) > 12).lower()}"
     return f"JsonRoundTrip ok={str(d['ok']).lower()} shape={json.loads(d['desc'])['js'][0]}"
